@@ -359,18 +359,16 @@ Proof. apply range_from_nodup. Qed.
 (* ---------------------------------------------------------------- header *)
 
 Lemma spec_header_inv bs hl meta : spec_header bs = Some (hl, meta) ->
-  exists h, mapped_header meta = Some h /\ has_prefix bs h = true /\ len h = hl /\
-            hl = get32 bs 28 /\ meta = cut_nul (slice bs 32 (hl - 32)) /\
-            has_prefix bs c_hdrPrefix = true /\ hl <= len bs.
+  has_prefix bs c_hdrPrefix = true /\ hl = get32 bs 28 /\ (32 <= hl /\ hl <= 16384) /\ hl mod 32 = 0 /\
+  hl + 2052 <= len bs /\ meta = cut_nul (slice bs 32 (hl - 32)).
 Proof.
-  unfold spec_header. rewrite hdr_np_val. change (28 + 4) with 32.
+  unfold spec_header. rewrite hdr_np_val. change (28 + 4) with 32. change (4 * 512) with 2048.
   destruct (has_prefix bs c_hdrPrefix) eqn:Hp; cbn [negb]; [|discriminate].
   destruct (N.ltb_spec (get32 bs 28) 32) as [|H1]; cbn [orb]; [discriminate|].
-  destruct (N.ltb_spec (len bs) (get32 bs 28)) as [|H2]; [discriminate|].
-  destruct (mapped_header (cut_nul (slice bs 32 (get32 bs 28 - 32)))) as [h|] eqn:Eh; [|discriminate].
-  destruct (has_prefix bs h) eqn:Hh; cbn [andb]; [|discriminate].
-  destruct (N.eqb_spec (len h) (get32 bs 28)) as [El|]; [|discriminate].
-  intro E. injection E as <- <-. exists h. repeat split; assumption.
+  destruct (N.ltb_spec 16384 (get32 bs 28)) as [|H2]; cbn [orb]; [discriminate|].
+  destruct (N.eqb_spec (get32 bs 28 mod 32) 0) as [H3|]; cbn [negb orb]; [|discriminate].
+  destruct (N.ltb_spec (len bs) (get32 bs 28 + 4 + 2048)) as [|H4]; [discriminate|].
+  intro E. injection E as <- <-. repeat split; try assumption; try reflexivity; lia.
 Qed.
 
 (* the header's reader depends only on the header's bytes *)
@@ -378,22 +376,21 @@ Lemma spec_header_frame bs bs' hl meta : spec_header bs = Some (hl, meta) ->
   len bs <= len bs' -> agree bs bs' 0 hl -> spec_header bs' = Some (hl, meta).
 Proof.
   intros H Hl Ha. apply spec_header_inv in H.
-  destruct H as (h & Hm & Hh & Elen & E28 & Em & Hp & Hle).
-  pose proof (mapped_header_len _ _ Hm) as (_ & _ & Hb & _).
+  destruct H as (Hp & E28 & Hb & Hmod & Hfit & Em).
   assert (E28' : get32 bs' 28 = hl).
   { rewrite E28. symmetry. apply get32_agree. eapply agree_sub; [exact Ha|lia|lia]. }
   assert (Es : slice bs' 32 (hl - 32) = slice bs 32 (hl - 32)).
   { symmetry. apply slice_agree; try lia. eapply agree_sub; [exact Ha|lia|lia]. }
-  unfold spec_header. rewrite hdr_np_val. change (28 + 4) with 32.
+  unfold spec_header. rewrite hdr_np_val. change (28 + 4) with 32. change (4 * 512) with 2048.
   rewrite (has_prefix_agree bs bs' c_hdrPrefix Hp).
   2:{ change (len c_hdrPrefix) with 28. lia. }
   2:{ change (len c_hdrPrefix) with 28. eapply agree_sub; [exact Ha|lia|lia]. }
   cbn [negb]. rewrite E28'.
   destruct (N.ltb_spec hl 32) as [|_]; [lia|]. cbn [orb].
-  destruct (N.ltb_spec (len bs') hl) as [|_]; [lia|].
-  rewrite Es, <- Em, Hm.
-  rewrite (has_prefix_agree bs bs' h Hh) by (try lia; rewrite Elen; exact Ha).
-  cbn [andb]. rewrite Elen, N.eqb_refl. reflexivity.
+  destruct (N.ltb_spec 16384 hl) as [|_]; [lia|]. cbn [orb].
+  rewrite Hmod. change (0 =? 0) with true. cbn [negb orb].
+  destruct (N.ltb_spec (len bs') (hl + 4 + 2048)) as [|_]; [lia|].
+  rewrite Es, <- Em. reflexivity.
 Qed.
 
 (* ---------------------------------------------------------------- spec_read *)
@@ -422,8 +419,7 @@ Proof.
   { intro X. apply orb_true_iff in X as [X|X]; [left; now apply N.eqb_eq|right; now apply N.leb_le]. }
   destruct ((get32 bs hl =? 0) || (first_off hl <=? get32 bs hl)) eqn:E5; cbn [negb]; [|discriminate].
   specialize (H5 eq_refl).
-  pose proof (spec_header_inv _ _ _ Eh) as (h & Hm & _ & Elen & _).
-  pose proof (mapped_header_len _ _ Hm) as (_ & _ & Hb & _).
+  pose proof (spec_header_inv _ _ _ Eh) as (_ & _ & Hb & _ & Hfit & _).
   rewrite table_nf by lia.
   destruct (map_opt _ buckets) as [t|] eqn:Et; [|discriminate].
   destruct (pairwise rec_compat (concat t)) eqn:Ep; [|discriminate].
@@ -448,8 +444,7 @@ Proof.
   replace ((get32 bs hdr =? 0) || (first_off hdr <=? get32 bs hdr)) with true.
   2:{ symmetry. apply orb_true_iff. destruct H5 as [H5|H5]; [left; now apply N.eqb_eq|right; now apply N.leb_le]. }
   cbn [negb].
-  pose proof (spec_header_inv _ _ _ Eh) as (h & Hm & _ & Elen & _).
-  pose proof (mapped_header_len _ _ Hm) as (_ & _ & Hb & _).
+  pose proof (spec_header_inv _ _ _ Eh) as (_ & _ & Hb & _ & Hfit & _).
   rewrite table_nf by lia.
   apply map_opt_Forall2 in Ht. unfold bucket_ok in Ht. rewrite Ht, Hp. reflexivity.
 Qed.
